@@ -105,9 +105,11 @@ Record wcreq := { rq_str : list Z; rq_path : Z; rq22 : bool; rq3 : bool; rqoff :
 Definition pair_eqb (a b : Z * Z) : bool := (fst a =? fst b) && (snd a =? snd b).
 Definition is_used (u : list (Z * Z)) (p : Z * Z) : bool := existsb (pair_eqb p) u.
 
-(* makeDirectory: first i in 0..9999 for which basepath/today/%04d does not exist *)
+(* makeDirectory: first i in 0..9999 for which basepath/today/%04d does not exist.
+   Base id 3 stands for a path that cannot be created (it lies below a regular file): MkdirAll fails. *)
+Definition bad_path : Z := 3.
 Definition make_directory (u : list (Z * Z)) (path : Z) : option Z :=
-  if path =? 0 then None
+  if (path =? 0) || (path =? bad_path) then None
   else find (fun i => negb (is_used u (path, i))) (zrange 0 10000).
 
 (* the per-channel body of writeControlStart's loop *)
@@ -261,6 +263,15 @@ Definition stop_under_fault (s : st) : st := set_rs (set_chans s (map remove_all
 
 Definition stores_any (c : chan) : bool :=
   let d := snd (publish_chan c 1) in negb ((fst (fst d) =? 0) && (snd (fst d) =? 0) && (snd d =? 0)).
+
+(* second stage of the fault stream: the handle that failed stays in WritingState, so the START label of the next
+   START fails as well - after writeControlStart attached the writers and WritingState.Start set Active, the
+   types and the pattern.  Whatever START replies, the reported state must agree with what the channels do.
+   Observed: ComputeWritingState() after that START, then for every channel the records a publish of one
+   record adds to its three files at the reported pattern, and whether any other file changed. *)
+Definition pub_all (s : st) : list (Z * Z * Z) := map (fun c => snd (publish_chan c 1)) (chans s).
+Definition fault_start_obs (s : st) (r : wcreq) : rstate * list (Z * Z * Z) * bool :=
+  let s1 := fst (write_control true (stop_under_fault s) r) in (rs s1, pub_all s1, false).
 
 Definition fault_obs (s : st) : faultobs :=
   let s' := stop_under_fault s in
